@@ -42,7 +42,7 @@ use rustic_core::{
 
 pub fn generate(thorough: bool, rng: &mut Rng, ops: &mut Vec<String>, stats: &mut Stats) {
     // messages of ALL lengths 0..=N, plus a few long ones
-    let n_max = if thorough { 400 } else { 96 };
+    let n_max = if thorough { 600 } else { 96 };
     for n in 0..=n_max {
         ops.push(format!("c04 msg {n} {}", rng.below(1 << 40)));
         stats.hit("msg");
@@ -54,7 +54,7 @@ pub fn generate(thorough: bool, rng: &mut Rng, ops: &mut Vec<String>, stats: &mu
         stats.add("msg.bitflips", (n + 32) * 8);
     }
     // file / blob codec
-    let k = if thorough { 8 } else { 1 };
+    let k = if thorough { 20 } else { 1 };
     for _ in 0..150 * k {
         let z = if rng.chance(1, 2) { "z" } else { "-" };
         let n = match rng.below(6) {
@@ -90,7 +90,7 @@ pub fn generate(thorough: bool, rng: &mut Rng, ops: &mut Vec<String>, stats: &mu
         ops.push(format!("c04 blob {z} {}", hex(&d)));
     }
     // key scripts
-    for i in 0..(if thorough { 60 } else { 10 }) {
+    for i in 0..(if thorough { 150 } else { 10 }) {
         let len = 3 + rng.below(8);
         let mut s = Vec::new();
         let mut added = 0u64;
@@ -116,11 +116,11 @@ pub fn generate(thorough: bool, rng: &mut Rng, ops: &mut Vec<String>, stats: &mu
         stats.hit("keys.script");
         ops.push(format!("c04 keys {}", s.join(",")));
     }
-    for _ in 0..(if thorough { 20 } else { 3 }) {
+    for _ in 0..(if thorough { 40 } else { 3 }) {
         ops.push(format!("c04 scan {}", rng.below(1 << 40)));
         stats.hit("scan");
     }
-    for _ in 0..(if thorough { 12 } else { 2 }) {
+    for _ in 0..(if thorough { 25 } else { 2 }) {
         ops.push(format!("c04 tamper {}", rng.below(1 << 40)));
         stats.hit("tamper");
     }
